@@ -208,9 +208,14 @@ func newC12Env(delay func()) *c12Env {
 func testType(mt string) string { return "test/" + strings.NewReplacer("/", "-", "+", "-").Replace(mt) }
 
 func seededDelay(r *core.Rand, mu *sync.Mutex) func() {
+	calls := 0
 	return func() {
 		mu.Lock()
 		k := r.Intn(10)
+		calls++
+		if calls > 400 {
+			k = 0 // a megabyte read one byte at a time: the first few hundred boundaries get the jitter, the rest run at full speed
+		}
 		mu.Unlock()
 		switch {
 		case k < 5:
@@ -512,7 +517,7 @@ func C12(run *core.Run) {
 	exhaustive := len(jobs)
 	// 2. random chunkings of longer inputs
 	longs := c12Inputs(run, false)
-	nr := run.N(1500, 60000)
+	nr := run.N(1500, 30000)
 	for i := 0; i < nr; i++ {
 		r := run.CaseRand("chunk", i, nr*3/5)
 		in := longs[r.Intn(len(longs))]
